@@ -29,7 +29,7 @@ type TopicDescDump struct {
 	Subs            []SubDescDump // row (insertion) order
 }
 
-func decodeAny(b []byte) any {
+func c08DecodeAny(b []byte) any {
 	if b == nil {
 		return nil
 	}
@@ -57,8 +57,8 @@ func DumpTopicDesc(name string) TopicDescDump {
 		}
 	}
 	d.Auth, d.Anon = da.Auth, da.Anon
-	d.Public = decodeAny(tr.public)
-	d.Trusted = decodeAny(tr.trusted)
+	d.Public = c08DecodeAny(tr.public)
+	d.Trusted = c08DecodeAny(tr.trusted)
 	if tr.tags != nil {
 		var ss t.StringSlice
 		if err := ss.Scan(append([]byte{}, tr.tags...)); err == nil {
@@ -79,7 +79,7 @@ func DumpTopicDesc(name string) TopicDescDump {
 			continue
 		}
 		d.Subs = append(d.Subs, SubDescDump{User: s.uid, Rid: s.rid, Want: parseMode(s.modeWant), Given: parseMode(s.modeGiven),
-			Private: decodeAny(s.private), Deleted: s.deletedAt != nil})
+			Private: c08DecodeAny(s.private), Deleted: s.deletedAt != nil})
 	}
 	sort.Slice(d.Subs, func(i, j int) bool { return d.Subs[i].Rid < d.Subs[j].Rid })
 	return d
